@@ -60,7 +60,7 @@ static void c07_run(vf_case *c)
     }
     /* (2) caller workspace: geometric ladder of lengths down to the first failure, both alignments, two fill estimates */
     {
-        size_t G = generous_lwork(P, n, A.nnz); unsigned char *buf0 = malloc(G + 64);
+        size_t G = generous_lwork(P, n, A.nnz); unsigned char *buf0 = vf_ws_alloc(c, G + 64);
         int nws = 0, nshort = 0;
         for (int pass = 0; pass < 2 && c->nmore < 3; pass++) {
             int f = pass == 0 ? 30 : rng_int(r, 1, 3); vf_ienv_set(6, f);
@@ -68,7 +68,7 @@ static void c07_run(vf_case *c)
             for (int t = 0; t < 14 && !failed && c->nmore < 3; t++) {
                 int align4 = rng_bool(r, 0.5); void *work = buf0 + (align4 ? 4 : 8) + (16 - ((uintptr_t)buf0 & 15)) % 16;
                 size_t L = len - rng_int(r, 0, 3) * 4;
-                uint64_t mark = vf_ledger_mark();
+                uint64_t mark = vf_ledger_mark(); if (t % 3 == 0) vf_ws_fill(c, buf0, G + 64);
                 fact_run R; fact_do(P, &A, &opt, mypc, work, (int_t)L, ilu, &R);
                 if (vf_events_count(VF_EV_STACK_OVERLAP) > 0) { vf_viol(c, "workspace-stack-overlap", "workspace %zu bytes (align %d, fill %d): after a storage growth the head of the workspace stack passed its tail; info=%lld", L, align4 ? 4 : 8, f, (long long)R.info); vf_events_reset(); }
                 if (R.info > n) { failed = 1; nshort++; }
